@@ -68,6 +68,8 @@ Definition np_setcol {A} (d : A) (H : list (list A)) (i : nat) (v : list A) : li
 Definition np_setcol_rows {A} (d : A) (H : list (list A)) (a b i : nat) (v : list A) : list (list A) :=
   map (fun p => if (a <=? fst p) && (fst p <? b) then list_upd i (nth (fst p - a) v d) (snd p) else snd p)
       (combine (seq 0 (length H)) H).
+Fixpoint np_hstack {A} (X Y : list (list A)) : list (list A) :=
+  match X, Y with a :: X', b :: Y' => (a ++ b) :: np_hstack X' Y' | _, _ => [] end.
 Definition np_col {A} (d : A) (H : list (list A)) (j : nat) : list A := map (fun row => nth j row d) H.
 (* l[start::step] = v, positions counted from idx *)
 Fixpoint np_set_stride {A} (idx start step : nat) (v : A) (l : list A) : list A :=
@@ -125,7 +127,7 @@ forall exists as at return Type Prop Set fix cofix struct where using Definition
 Fixpoint nth skipn firstn repeat length fold_left map seq combine app rev concat Nat Bool List Fin PInf ext ltb add sub
 mul div minT sqrtT ofNat zero st_ p_ np_prod np_zeros2 list_rep list_upd np_setcol np_setcol_rows np_col np_set_stride
 np_nonzero_from py_max_nat py_min_nat py_max py_min py_max_list py_min_list ext_ltb np_subtract np_sum np_euclid np_cdist
-np_map2 np_nanmin0 negb andb orb
+np_map2 np_nanmin0 negb andb orb np_hstack row_ rev
 """.split())
 
 
@@ -307,6 +309,9 @@ class NpTranslator:
             a, ta = self.coerce(a, ta, "nat"), "nat"
         if tb == "bool":
             b, tb = self.coerce(b, tb, "nat"), "nat"
+        if ta == "nat" and tb == "nat" and isinstance(op, ast.Div) and not self.numeric:
+            # true division of two integers: a float, read as an exact rational
+            return "(%s / %s)%%Q" % (self.coerce(a, "nat", "Q"), self.coerce(b, "nat", "Q")), "Q"
         if ta == "nat" and tb == "nat":
             sym = {ast.Add: "+", ast.Sub: "-", ast.Mult: "*", ast.FloorDiv: "/", ast.Mod: "mod"}.get(type(op))
             if sym is None:
@@ -394,6 +399,13 @@ class NpTranslator:
             if is_arr(ta) or is_arr(tb) or is_list(ta) or is_list(tb):
                 raise self.bad("operator %s on %s and %s" % (type(n.op).__name__, ta, tb), n)
             return self.scalar_binop(n.op, a, ta, b, tb, n)
+        if isinstance(n, ast.UnaryOp) and isinstance(n.op, ast.USub):
+            a, ta = self.expr(n.operand)
+            if is_arr(ta) and elem(ta) == "Z":
+                return self.elementwise(a, ta, lambda v, et: ("(- %s)%%Z" % v, "Z"))
+            if ta == "Z":
+                return "(- %s)%%Z" % a, "Z"
+            raise self.bad("unary minus on a %s" % ta, n)
         if isinstance(n, ast.Compare):
             if len(n.ops) != 1:
                 raise self.bad("chained comparison", n)
@@ -458,6 +470,12 @@ class NpTranslator:
         s, t = self.expr(base)
         t = norm_type(t)
         if isinstance(sl, ast.Tuple):
+            if t.startswith("arr2 ") and len(sl.elts) == 2 and isinstance(sl.elts[0], ast.Slice) \
+                    and sl.elts[0].lower is None and sl.elts[0].upper is None and sl.elts[0].step is None \
+                    and isinstance(sl.elts[1], ast.Slice) and sl.elts[1].step is None \
+                    and sl.elts[1].lower is not None and sl.elts[1].upper is not None:
+                lo, up = self.nat(sl.elts[1].lower), self.nat(sl.elts[1].upper)          # A[:, lo:up]
+                return "(map (fun row_ => firstn (%s - %s) (skipn %s row_)) %s)" % (up, lo, self.atom(lo), s), t
             if t.startswith("arr2 ") and len(sl.elts) == 2 and isinstance(sl.elts[0], ast.Slice) \
                     and sl.elts[0].lower is None and sl.elts[0].upper is None and sl.elts[0].step is None:
                 j = self.nat(sl.elts[1])
@@ -545,6 +563,18 @@ class NpTranslator:
         if d == "numpy.ones" and len(n.args) == 1 and set(kw) == {"dtype"} and (
                 m.dotted(kw["dtype"]) in ("numpy.bool", "numpy.bool_") or (isinstance(kw["dtype"], ast.Name) and kw["dtype"].id == "bool")):
             return "(repeat true %s)" % self.atom(self.nat(n.args[0])), "arr1 bool"
+        if d in ("numpy.vstack", "numpy.hstack") and len(n.args) == 1 and not kw and isinstance(n.args[0], ast.Tuple) and len(n.args[0].elts) == 2:
+            (a, ta), (b, tb) = (self.expr(e) for e in n.args[0].elts)
+            if not (ta == tb and ta.startswith("arr2 ")):
+                raise self.bad("%s of %s and %s" % (d, ta, tb), n)
+            if d == "numpy.vstack":
+                return "(%s ++ %s)" % (a, b), ta
+            return "(np_hstack %s %s)" % (self.atom(a), self.atom(b)), ta
+        if d == "numpy.flipud" and len(n.args) == 1 and not kw:
+            a, ta = self.expr(n.args[0])
+            if not ta.startswith("arr2 "):
+                raise self.bad("np.flipud of %s" % ta, n)
+            return "(rev %s)" % a, ta
         if d == "numpy.subtract" and len(n.args) == 2 and not kw:
             a, ta = self.expr(n.args[0])
             b, tb = self.expr(n.args[1])
@@ -687,6 +717,11 @@ class NpTranslator:
         if isinstance(st, ast.Return):
             if not top or rest or st.value is None:
                 raise self.bad("return that is not the last statement of the function", st)
+            if isinstance(st.value, ast.Tuple):
+                parts = [self.expr(e) for e in st.value.elts]
+                s, t = "(%s)" % ", ".join(p[0] for p in parts), "(%s)" % " * ".join(coq_type(norm_type(p[1])) for p in parts)
+                self.ret_seen(t, st)
+                return "Some %s" % s if self.option else s
             s, t = self.expr_top(st.value)
             self.ret_seen(norm_type(t), st)
             return "Some %s" % self.atom(s) if self.option else s
@@ -836,6 +871,51 @@ def m_is_value(n):
     return True
 
 
+def slice_function(node, fspec, key):
+    """Slice mode: a contiguous run of TOP-LEVEL statements of the function, from the statement whose first line is
+    fspec["first"] to the one whose first line is fspec["last"] (absent: to the end of the function), as a synthetic
+    function of the declared `locals`; with `results` it returns those locals.  Each designated line must occur exactly
+    once among the top-level statements.  Pins the slice only: what precedes it is not translated."""
+    import copy
+    firsts = [ast.unparse(st).split("\n")[0] for st in node.body]
+
+    def find(text):
+        """anchor: the exact first line of a statement, {"assigns": name} = THE top-level assignment to that name,
+        {"loop": "for"} = THE top-level for loop"""
+        if isinstance(text, dict) and "assigns" in text:
+            idx = [i for i, st in enumerate(node.body)
+                   if (isinstance(st, ast.Assign) and any(isinstance(t, ast.Name) and t.id == text["assigns"] for t in st.targets))
+                   or (isinstance(st, ast.AugAssign) and isinstance(st.target, ast.Name) and st.target.id == text["assigns"])]
+        elif isinstance(text, dict) and text.get("loop") == "for":
+            idx = [i for i, st in enumerate(node.body) if isinstance(st, ast.For)]
+        else:
+            idx = [i for i, t in enumerate(firsts) if t == text]
+        if len(idx) != 1:
+            raise Unsupported("slice mode: the statement `%s` occurs %d times at the top level of %s" % (text, len(idx), key), node, key)
+        return idx[0]
+    a = find(fspec["first"])
+    b = find(fspec["last"]) if fspec.get("last") else len(node.body) - 1
+    if b < a:
+        raise Unsupported("slice mode: `%s` comes after `%s`" % (fspec["first"], fspec["last"]), node, key)
+    body = [copy.deepcopy(st) for st in node.body[a:b + 1]]
+    res = fspec.get("results")
+    if res:
+        val = ast.Name(id=res[0], ctx=ast.Load()) if len(res) == 1 else ast.Tuple(elts=[ast.Name(id=r, ctx=ast.Load()) for r in res], ctx=ast.Load())
+        body.append(ast.Return(value=val))
+    names = list(fspec.get("locals", {}))
+    fn = ast.FunctionDef(name=node.name, args=ast.arguments(posonlyargs=[], args=[ast.arg(arg=x) for x in names], vararg=None,
+                                                            kwonlyargs=[], kw_defaults=[], kwarg=None, defaults=[]),
+                         body=body, decorator_list=[], returns=None, type_comment=None)
+    ast.copy_location(fn, node.body[a])
+    for n in ast.walk(fn):
+        if not hasattr(n, "lineno"):
+            ast.copy_location(n, node.body[a])
+    ast.fix_missing_locations(fn)
+    sp = dict(fspec)
+    sp["params"] = dict(fspec.get("locals", {}))
+    return fn, sp
+
+
 # ----------------------------------------------------------------------------------------------
 def translate_spec(repo, spec):
     """-> (coq text, [{"function", "sha1", "source"}]); raises Unsupported."""
@@ -854,16 +934,27 @@ def translate_spec(repo, spec):
         sha = hashlib.sha1(fs.encode()).hexdigest()
         if name not in [i["function"] for i in info]:
             info.append({"function": name, "sha1": sha, "source": fs})
-        fspec = spec.get("types", {}).get(name)
+        key = name + ("#" + item[2] if len(item) > 2 else "")
+        fspec = spec.get("types", {}).get(key)
         if fspec is None:
-            raise Unsupported("no typing for %s in the spec" % name)
-        ft = NpTranslator(minfo, name, fspec, node, done, bool(spec.get("numeric")))
-        text = ft.translate()
+            raise Unsupported("no typing for %s in the spec" % key)
         note = ""
+        tnode = node
+        if fspec.get("mode") == "slice":
+            tnode, fspec = slice_function(node, fspec, key)
+            note = ("\n(* SLICE of %s: the top-level statements from `%s` to %s as a function of the locals %s; what precedes / follows"
+                    " and the data flow into the locals are NOT translated *)" % (
+                        name, json.dumps(fspec["first"]).replace("*)", "* )"), "`%s`" % json.dumps(fspec["last"]).replace("*)", "* )") if fspec.get("last") else "the end", ", ".join(fspec["params"])))
+        elif fspec.get("mode"):
+            raise Unsupported("front-end np: mode %r" % fspec.get("mode"))
+        ft = NpTranslator(minfo, name, fspec, tnode, done, bool(spec.get("numeric")))
+        if "as" not in fspec and len(item) > 2:
+            ft.coq = "%s_%s_gen" % (name.lstrip("_"), item[2])
+        text = ft.translate()
         if ft.fixed:
-            note = "\n(* decided statically by the spec (not translated): %s *)" % json.dumps(ft.fixed, sort_keys=True).replace("*)", "* )")
+            note += "\n(* decided statically by the spec (not translated): %s *)" % json.dumps(ft.fixed, sort_keys=True).replace("*)", "* )")
         parts.append("(* %s, lines %d-%d of %s, sha1 %s *)%s\n%s" % (name, node.lineno, node.end_lineno, spec["source"], sha, note, text))
-        done[name] = ft
+        done[key] = ft
     head = ("(* GENERATED by tools/py2coq_np.py from %s - never edit, never commit.\n"
             "   Shallow Gallina definitions of: %s. *)\n" % (spec["source"], ", ".join(i["function"] for i in info)))
     body = "\n\n".join(parts)
